@@ -261,6 +261,23 @@ func crashOnce(self, dir string, tr *core.Tracer, sc *crashScen, raw json.RawMes
 	if err != nil {
 		return 0, 0, 0, err
 	}
+	if sc.Mode == "upgrade" {
+		// the file-system calls of the upgrading open, in order, for the protocol conformance check (Upgrade.tla):
+		// everything up to the end of the open (mark "E -1")
+		var list [][3]string
+		for _, op := range ops {
+			if op.Kind == "mark" {
+				if strings.HasPrefix(string(op.Data), "E -1") {
+					break
+				}
+				continue
+			}
+			list = append(list, [3]string{op.Kind, filepath.Base(op.Path), filepath.Base(op.Path2)})
+		}
+		if b, err := json.Marshal(map[string]any{"t": idx, "ops": list}); err == nil {
+			os.WriteFile(fmt.Sprintf("%s.fsops.%d.json", outPrefix, idx), b, 0o644)
+		}
+	}
 	// self-check of the reconstruction: the final image must equal the real directory
 	final := img0.Clone()
 	for _, op := range ops {
@@ -457,7 +474,7 @@ func recoverImage(base, root string, im *straceimg.Image, r *seqRun, sc *crashSc
 	c := sc.Cfg
 	d := filepath.Join(base, "img")
 	os.RemoveAll(d)
-	ev := core.Ev{"open": "", "obs": []int{}, "panic": ""}
+	ev := core.Ev{"open": "", "obs": []int{}, "panic": "", "legacyLeft": []string{}}
 	if err := im.Materialize(root, d); err != nil {
 		ev["open"] = "harness: " + err.Error()
 		return ev
@@ -484,6 +501,16 @@ func recoverImage(base, root string, im *straceimg.Image, r *seqRun, sc *crashSc
 		if err != nil {
 			ev["open"] = err.Error()
 			return nil
+		}
+		if sc.Mode == "upgrade" && r.primaryType() == store.MultihashPrimary {
+			// a completed (resumed) upgrade leaves no legacy file behind
+			left := []string{}
+			for _, n := range []string{"data", "index"} {
+				if fi, err := os.Stat(filepath.Join(d, n)); err == nil && !fi.IsDir() {
+					left = append(left, n)
+				}
+			}
+			ev["legacyLeft"] = left
 		}
 		for i, key := range r.keys {
 			v, found, err := st.Get(key)
